@@ -7,7 +7,8 @@ LEVEL_TEXT = ("Clause-level static rules for the environment containers: a top v
               "drop bindings that reach top), the default_is_absorbing flag of every merge operator agrees with the operator it "
               "applies and with the map's default, set/forget/rename keep their case structure, tree nodes are immutable "
               "(persistence), and the lattice operators answer the bottom/top special cases correctly. The bit-prefix "
-              "merge/compare/insert/remove algorithms of the patricia tree are NOT decided.")
+              "merge/compare/insert/remove algorithms of the patricia tree are NOT decided."
+              " Every recursive call of the Patricia merge keeps the operand order (the op need not be commutative).")
 ASSUMPTIONS = ["patricia tree merge/compare/insert/remove implement pointwise combination (graph algorithm, not decided)"]
 
 
